@@ -60,6 +60,9 @@ def processLine (line : String) : String :=
         if C14.stepOK r then "ok"
         else
           let changed := (before.filter (fun m => find after m.id != some m)).map (·.id)
-          s!"PROP C14 front-end-mutation-differs-from-the-selection-it-was-given changed={changed} {tag}"
+          -- the MCP tools take a different road per backend: a defect on one road makes the same call behave differently
+          -- depending only on `queue { backend … }`
+          let also := if (str j "via").startsWith "mcp-" then ",C13" else ""
+          s!"PROP C14{also} front-end-mutation-differs-from-the-selection-it-was-given changed={changed} {tag}"
 
 end Hk.DriveOpFront
